@@ -477,6 +477,8 @@ class CallMixin:
             return o
         # everything else: opaque, logged
         run.effect("extcall", q, None, list(args), node, extra=dict(kwargs))
+        if q in ("re.sub", "re.subn"):
+            return SStr([Frag("OP", ("call", q), {"args": list(args), "kwargs": dict(kwargs)}, ())])
         rk = None
         if q in ("os.path.join", "posixpath.join", "os.path.dirname", "os.path.realpath", "urllib.parse.quote",
                  "json.dumps", "os.path.basename", "tempfile.gettempdir"):
@@ -768,6 +770,16 @@ class CallMixin:
             return SOpaque((f"UserString.{name}", _ref(recv)))
         if kinds <= frozenset({"VERSION"}):
             return SOpaque((f"Version.{name}", _ref(recv)))
+        # compiled regular expressions: pattern.search(s) == re.search(pattern, s)
+        ec = recv.__dict__.get("extcall") if isinstance(recv, SOpaque) else None
+        if ec is not None and ec["q"] == "re.compile" and name in ("search", "match", "fullmatch", "sub", "subn", "findall"):
+            pargs = list(ec["args"])
+            kw = dict(ec["kwargs"])
+            if len(pargs) > 1:
+                kw.setdefault("flags", pargs[1])
+            if name in ("sub", "subn"):
+                return self.call_extern(SExtern("re", name), [pargs[0]] + list(args), dict(kw, **kwargs), node)
+            return self.call_extern(SExtern("re", name), [pargs[0]] + list(args), dict(kw, **kwargs), node)
         # external object's method (tagify / _repr_html_ of user classes, file objects, ...)
         run.effect("call", SBound(recv, name), recv, list(args), node, extra={"kwargs": dict(kwargs), "external": True})
         if name == "_repr_html_":
